@@ -51,6 +51,14 @@ def gen(tier, rng):
     yield "sd t d,l,x1", {"scenario": "listener-closed-before-any-attempt"}
     yield "sd u d,l,p,x1", {"scenario": "listener-closed-before-any-attempt"}
     yield "sd 2 c1,r,d,w50,x9,l,a", {"scenario": "bound-to-127.0.0.2"}
+    # two configured addresses: the first that binds is the server's only listener; whatever was configured, nothing
+    # accepts on any of them after the drop
+    yield "sd m y1,c1,r,d,w100,y2,x3,l,a", {"scenario": "two-configured-addresses"}
+    yield "sd m d,y1,x2,l", {"scenario": "two-configured-addresses"}
+    # a burst of requests that the application never receives, the clients leave, the idle period passes: the worker
+    # threads are reclaimed (at most accept thread + 4 workers remain), and none is left once the server is dropped
+    yield "sd t %s,w300,k,w5600,n,d,w300,n" % ",".join("c%d" % k for k in range(1, 21)), {"scenario": "unreceived-burst-then-idle"}
+    yield "sd u %s,w300,k,w300,d,w300,n" % ",".join("c%d" % k for k in range(1, 13)), {"scenario": "unreceived-burst-then-drop"}
     # a UNIX-socket server whose accept loop has already ended (listener handed in non-blocking: accept fails at once):
     # dropping the server must still remove the socket path
     yield "sd n w150,d,p,x1", {"scenario": "accept-loop-already-ended"}
@@ -101,6 +109,13 @@ def oracle(case, obs):
         for m in re.finditer(r"x(\d+)=(\w+)", obs):
             if m.group(2) != "refused":
                 return "FAIL a connection attempt after drop(server) was not refused within 1 s (%s)" % m.group(2)
+        m = re.search(r"thr=(\d+)>(\d+)", obs)
+        if m:
+            return "FAIL %s threads of the server are still alive (at most %s may be) after the burst was over%s" % (
+                m.group(1), m.group(2), " and the server was dropped" if m.group(2) == "0" else " and the idle period had passed")
+        for mm in re.finditer(r"y(\d+)=(\w+)", obs):
+            if mm.group(2) != "refused":
+                return "FAIL the second configured address accepts connections (%s)" % mm.group(2)
         if "p=there" in obs:
             return "FAIL the UNIX socket path still exists after drop(server)"
         ls = re.findall(r"l=(\w+)", obs)
